@@ -164,7 +164,7 @@ ENGINES['esweep'] = {
     'inc_first': ['shim'],
     'sim_src': ['sim/alloc.c', 'sim/umem_sim.c', 'sim/upump_sim.c'],
     'repo_src': BUF_SRC + ['lib/upipe/upump_common.c', 'lib/upipe/uprobe_upump_mgr.c', 'lib/upipe/uprobe_uref_mgr.c',
-                           'lib/upipe/uprobe_ubuf_mem.c', 'lib/upipe/uprobe_uclock.c', 'lib/upipe/uprobe_prefix.c', 'lib/upipe/ustring.c',
+                           'lib/upipe/uprobe_ubuf_mem.c', 'lib/upipe/uprobe_ubuf_mem_pool.c', 'lib/upipe/uprobe_uclock.c', 'lib/upipe/uprobe_prefix.c', 'lib/upipe/ustring.c',
                            'lib/upipe/uuri.c'] +
                 ['lib/upipe-modules/upipe_%s.c' % m for m in SWEEP_MODULES + SWEEP_MODULES2] +
                 ['lib/upipe-filters/upipe_%s.c' % m for m in SWEEP_FILTERS] + ['lib/upipe-filters/zoneplate/videotestsrc.c'] +
